@@ -1,14 +1,19 @@
 #!/bin/bash
-# run_mutant.sh <patch.diff> <ID> [tier]  : apply a mutant to /repo, run the check, always revert.
+# run_mutant.sh <patch.diff> <ID> [tier]  : apply a mutant to the repo, run the check, always revert.
 # exit 0 = the check caught the mutant (VIOLATION), 1 = missed
 P="$(realpath "$1")"; ID="$2"; TIER="${3:-quick}"
-cd /verif
-if [ -n "$(git -C /repo status --porcelain --untracked-files=no)" ]; then echo "repo dirty"; exit 2; fi
-trap 'git -C /repo checkout -- . ; ' EXIT
-git -C /repo apply "$P" || { echo "patch does not apply"; exit 2; }
-out=$(bin/check "$ID" "$TIER" 2>&1); rc=$?
+V="$(cd "$(dirname "$0")/.." && pwd)"
+R="${VERIF_REPO:-/repo}"
+B="${VERIF_BUILD:-$V/build}"
+cd "$V"
+exec 8>"$B/.tree.lock"; flock -x 8
+if [ -n "$(git -C $R status --porcelain --untracked-files=no)" ]; then echo "repo dirty"; exit 2; fi
+trap 'git -C $R checkout -- . ; ' EXIT
+git -C $R apply "$P" || { echo "patch does not apply"; exit 2; }
+mkdir -p $B/mutant_replays
+out=$(VERIF_NOLOCK=1 bin/check "$ID" "$TIER" 2>&1); rc=$?
 echo "$out" | grep -E "VIOLATION|what:|KNOWN-FINDING|BUILD-ERROR|^OK" | head -8
 # remove violation replays produced by the mutant
-rm -f /verif/replays/$ID/violation_* 
+rm -f $V/replays/$ID/violation_*
 if [ $rc -eq 1 ] && echo "$out" | grep -q "^VIOLATION"; then echo "MUTANT CAUGHT: $(basename $P)"; exit 0; fi
 echo "MUTANT MISSED: $(basename $P) (rc=$rc)"; exit 1
